@@ -1083,8 +1083,15 @@ impl<'a> Searcher<'a> {
                     ));
                 }
                 _ => {
-                    if let Ok(path) = crate::util::canonical_path(&entry.path()) {
-                        return Variant::from_string(&path);
+                    // the entry's own location: its directory resolved, its own name kept (a link is not its target)
+                    let path = entry.path();
+                    if let Some(parent) = path.parent() {
+                        let parent = if parent.as_os_str().is_empty() { Path::new(".") } else { parent };
+                        if let Ok(dir) = crate::util::canonical_path(&parent.to_path_buf()) {
+                            let name = entry.file_name();
+                            let sep = if dir.ends_with('/') { "" } else { "/" };
+                            return Variant::from_string(&format!("{}{}{}", dir, sep, name.to_string_lossy()));
+                        }
                     }
                 }
             },
